@@ -20,15 +20,35 @@ from ..impl import mx, close_all, quiet
 from modelx.core.errors import DeletedObjectError
 from modelx.core.base import null_impl
 
+F = S.F
 CFG = {
     "enum_always": ("del_space", "del_cells", "remove_bases", "del_ref", "del_mref"),
     "weights": {"new_space": 2.0, "del_space": 2.0, "new_cells": 3.0, "set_formula": 1.0, "del_cells": 3.0,
                 "rename_cells": 0.3, "add_bases": 2.0, "remove_bases": 2.5, "set_ref": 1.5, "del_ref": 1.5,
-                "set_mref": 0.3, "eval": 3.0, "evalall": 0.6, "bad": 0.3},
+                "set_mref": 0.3, "eval": 3.0, "evalall": 0.6, "bad": 0.3, "set_cached": 0.6},
+    # a reference that holds a cells or a space is a handle the MODEL keeps: a quarter of the references created
+    "obj_refs": 0.25,
+    # deletion must be complete whatever the caching mode of the deleted cells and of its readers
+    "uncached_variants": True,
+    "extra_motifs": [
+        # a DERIVED cells held by a reference of an unrelated space and called by name there (deleting the
+        # base member deletes the derived copy the reference holds)
+        [["new_space", "-", "A", []], ["set_ref", "A", "s", 2], ["new_cells", "A", "f", F(2, 1, "f", "s")],
+         ["new_space", "-", "B", ["A"]], ["new_space", "-", "C", []], ["set_ref", "C", "t", ["obj", "B.f"], "absolute"],
+         ["new_cells", "C", "g", F(9, 1, "g", "t")], ["new_cells", "C", "h", F(1, 1, "g")]],
+        # a cells and a space held by references of another space: called by name, read by attribute path
+        [["new_space", "-", "A", []], ["new_cells", "A", "f", F(0, 1)], ["new_cells", "A", "k", F(1, 1, "f")],
+         ["new_space", "-", "B", []], ["set_ref", "B", "t", ["obj", "A.k"], "absolute"],
+         ["set_ref", "B", "s", ["obj", "A"], "absolute"], ["new_cells", "B", "g", F(9, 1, "g", "t")],
+         ["new_cells", "B", "h", F(4, 1, "f", "r", "s")]],
+    ],
 }
 RULE = ("random histories (14-28 ops) rich in deletions (cells, spaces with descendants, references, base "
         "relations, base members) with handles taken at earlier points; non-trivial = a handle to a derived member "
         "or to an object inside a deleted space died")
+
+
+KNOWN_SPACE = "C13-deleted-space-uncached-cells"     # repaired by /repo 9b6c361: a `fixed` entry, excuses nothing
 
 
 def resolve(model, path, kind, name):
@@ -64,6 +84,8 @@ class H(S.Hooks):
         self.k = 0
         self.objrefs = False
         self.pre = None
+        self.uncached_in_deleted_space = False    # trigger of the known finding KNOWN_SPACE seen in this history
+        self.reported_dead_nodes = set()
 
     def before(self, live, ops, k, op, stats):
         self.pre = self.snapshot(live) if op[0] not in ("eval", "evalall") else None
@@ -78,6 +100,10 @@ class H(S.Hooks):
                 for cn, c in s.cells.items():
                     if not any(h[0] is c for h in self.handles) and len(self.handles) < 24:
                         self.handles.append((c, path, "cells", cn, bool(c._is_derived())))
+
+    @staticmethod
+    def node_id(node):
+        return (id(node[0]),) + tuple(repr(x) for x in node[1:])
 
     def snapshot(self, live):
         """ids of the live implementation objects and the current dependency edges"""
@@ -98,6 +124,15 @@ class H(S.Hooks):
 
     def after(self, live, ops, k, op, result, out, stats):
         if op[0] in ("eval", "evalall"):
+            # an evaluation must not bring a deleted object back: no node of the dependency graph belongs
+            # to an implementation object that is not in the model any more (nodes already reported after
+            # the deletion itself are not reported again)
+            alive = set(self.snapshot(live)[0])
+            for node in live.m._impl.tracegraph.nodes:
+                if id(node[0]) not in alive and self.node_id(node) not in self.reported_dead_nodes:
+                    out.fail("an evaluation put a node of a deleted object (%r) into the dependency graph: something "
+                             "was computed from it" % (node[0].name,), S.hist_json(ops, k))
+                    break
             return
         hist = S.hist_json(ops, k)
         m = live.m
@@ -108,6 +143,12 @@ class H(S.Hooks):
             impls0, edges0, nodes0 = self.pre
             impls1, _, _ = self.snapshot(live)
             dead = set(impls0) - set(impls1)
+            if any(len(n) == 1 and id(n[0]) in dead and hasattr(n[0], "is_cached") and not n[0].is_cached
+                   and id(getattr(n[0], "parent", None)) in dead for n in nodes0):
+                # a space (static or ItemSpace) went away together with an uncached cells that had been evaluated:
+                # the recorded finding KNOWN_SPACE (the key-less node of the cells and what was computed through it
+                # outlive the space)
+                self.uncached_in_deleted_space = True
             if dead:
                 succ = collections.defaultdict(list)
                 for a, b in edges0:
@@ -124,7 +165,8 @@ class H(S.Hooks):
                     if id(n[0]) in impls1 and len(n) == 2 and hasattr(n[0], "data") and n[1] in n[0].data \
                             and n[1] not in n[0].input_keys:
                         out.fail("%s%r still holds the value computed from an object deleted by %s" % (
-                            n[0].get_fullname() if hasattr(n[0], "get_fullname") else n[0].name, n[1], op[0]), hist)
+                            n[0].get_fullname() if hasattr(n[0], "get_fullname") else n[0].name, n[1], op[0]), hist,
+                            key=KNOWN_SPACE if self.uncached_in_deleted_space else None)
                         break
                 stats["deletions_examined"] += 1
         # every derived member still has a definer (nothing derived from a deleted base survives)
@@ -188,11 +230,14 @@ class H(S.Hooks):
                     out.fail("deleted cells %s.%s is still in %s.cells" % (path, name, p2), hist)
             self.handles = [x for x in self.handles if x[0] is not h]
         # the dependency graph mentions no dead object
-        for node in m._impl.tracegraph.nodes:
-            if id(node[0]) not in alive_impls:
-                out.fail("the dependency graph still has a node of a deleted object (%r)" % (node[0].name,), hist,
-                         key="C13-deleted-object-in-formula-globals" if self.objrefs else None)
-                break
+        deadnodes = [node for node in m._impl.tracegraph.nodes if id(node[0]) not in alive_impls]
+        self.reported_dead_nodes = {self.node_id(n) for n in deadnodes}
+        if deadnodes:
+            node = deadnodes[0]
+            only_keyless_uncached = all(len(n) == 1 and hasattr(n[0], "is_cached") and not n[0].is_cached for n in deadnodes)
+            out.fail("the dependency graph still has a node of a deleted object (%r)" % (node[0].name,), hist,
+                     key=KNOWN_SPACE if self.uncached_in_deleted_space and only_keyless_uncached else
+                     "C13-deleted-object-in-formula-globals" if self.objrefs else None)
 
     def end(self, live, ops, out, stats):
         mine = S.eval_everything(live)
@@ -204,9 +249,15 @@ class H(S.Hooks):
         for q, v in mine.items():
             w = theirs.get(q)
             if w is not None and w != v and "Deep" not in v + w:
+                if not self.uncached_in_deleted_space and _known(live, q, v, w) == "C13-caught-failure-untracked":
+                    # the `except` value of a formula that handled a callee's failure, kept although a later edit
+                    # makes the callee succeed: C02's recorded finding (no dependency on a failed callee), not a
+                    # value computed from a deleted object - C02 reports it, C13 does not speak about it
+                    stats["differences_left_to_C02_caught_failure"] = stats.get("differences_left_to_C02_caught_failure", 0) + 1
+                    continue
                 out.fail("%s returns %s but a model to which only the edits were applied returns %s "
                          "(a value computed from a deleted object survived?)" % (q, v, w), S.hist_json(ops),
-                         key=_known(live, q, v, w))
+                         key=KNOWN_SPACE if self.uncached_in_deleted_space else _known(live, q, v, w))
                 break
 
 
@@ -217,9 +268,224 @@ def _known(live, q, v, w=None):
     return "C13-" + k[4:] if k else None
 
 
+# ----------------------------------------------------------------------------- dynamic copies
+#
+# Deletion has to reach the DYNAMIC copies of the deleted object as well: the cells and child spaces of every
+# ItemSpace built from the space the deleted member lives in - whichever parametrised space the ItemSpace hangs
+# under (several parents may choose the same foreign base, with equal or different arguments), however deeply
+# it is nested (an ItemSpace of a parametrised child inside an ItemSpace, equal arguments at both levels
+# included).  The scenarios are the motif programs of the ItemSpace world (shared with C07: harness/mxh/props/
+# c07.py MOTIFS, itemworld.py), with two instances of every parametrised space (nested ones through them)
+# created and evaluated and the callers in plain spaces evaluated; handles are taken to EVERY live dynamic
+# space and to every cells in it, each together with the static object it is a copy of; then one edit - every
+# deletion applicable anywhere (quick and thorough), other definition edits sampled - and the oracle:
+#   * a handle whose static original is dead is dead: every use raises the deleted-object error;
+#   * a handle that is alive is the object now found under its address;
+#   * no parametrised space lists an ItemSpace (and no dynamic space a cells) whose original is dead;
+#   * the dependency graph has no node of an object that is not in the model, and what depended (in the graph
+#     before the edit) on nodes of objects that went away holds no value.
+
+def dyn_alive(m):
+    """{id(impl): impl} of everything in the model: static spaces and cells, and the dynamic spaces / cells
+    listed under them whose static original is alive"""
+    from .. import itemworld as IW
+    alive, orphans = {}, []
+
+    def add_static(impl):
+        alive[id(impl)] = impl
+        for c in impl.cells.values():
+            alive[id(c)] = c
+        for ch in impl.named_spaces.values():
+            add_static(ch)
+    for sp in m._impl.spaces.values():
+        add_static(sp)
+    for path, cchain, dyn, is_item in IW.dyn_entries(m):
+        impl = dyn._impl
+        base = impl._dynbase
+        addr = IW.chain_txt(path, cchain)
+        if base is None or id(base) not in alive:
+            orphans.append("%s is a copy of a space that is not in the model any more" % addr)
+            continue
+        alive[id(impl)] = impl
+        for cn, c in impl.cells.items():
+            if cn in base.cells and id(base.cells[cn]) in alive:
+                alive[id(c)] = c
+            else:
+                orphans.append("%s.%s is a copy of a cells that is not in the model any more" % (addr, cn))
+    return alive, orphans
+
+
+def dyn_handles(m):
+    """(handle, kind, static path, canonical chain, cells name, interface of the static original)"""
+    from .. import itemworld as IW
+    out = []
+    for path, cchain, dyn, is_item in IW.dyn_entries(m):
+        base = dyn._impl._dynbase.interface
+        out.append((dyn, "space", path, cchain, None, base))
+        for cn, c in dyn.cells.items():
+            out.append((c, "cells", path, cchain, cn, base.cells[cn] if cn in base.cells else None))
+    return out
+
+
+def dyn_scenario(ops, n_prefix, out, stats):
+    """ops[:n_prefix] builds, creates the instances and evaluates; the handles are taken; then the edits
+    ops[n_prefix:], the oracle after each"""
+    from .. import itemworld as IW
+    close_all()
+    w = IW.World("M")
+    try:
+        for op in ops[:n_prefix]:
+            w.apply(op)
+        m = w.m
+        handles = dyn_handles(m)
+        stats["dyn_handles"] += len(handles)
+        for k in range(n_prefix, len(ops)):
+            op = ops[k]
+            hist = {"ops": ops[:k + 1]}
+            impls0, _ = dyn_alive(m)
+            g = m._impl.tracegraph
+            edges0, nodes0 = list(g.edges), list(g.nodes)
+            r = w.apply(op)
+            stats["dyn_op:" + op[0]] += 1
+            if op[0] not in IW.EDIT_KINDS:
+                continue
+            impls1, orphans = dyn_alive(m)
+            for o in orphans[:2]:
+                out.fail("after %s (%s) %s" % (op[0], r.split(" ")[0], o), hist)
+            for (h, kind, path, cchain, cn, orig) in handles:
+                stats["dyn_handle_checks"] += 1
+                addr = IW.chain_txt(path, cchain) + ("." + cn if cn else "")
+                orig_dead = orig is None or not orig._is_valid()
+                if h._is_valid():
+                    if orig_dead:
+                        out.fail("a handle to %s, a dynamic copy of a %s deleted by %s, still acts" % (addr, kind, op[0]), hist)
+                        continue
+                    cur = IW.resolve(m, path, cchain)
+                    if kind == "cells" and cur is not None:
+                        cur = cur.cells[cn] if cn in cur.cells else None
+                    if cur is not h:
+                        out.fail("a handle to %s is alive after %s but is not the object found under its address" % (
+                            addr, op[0]), hist)
+                    continue
+                stats["dyn_dead_handles"] += 1
+                for what, use in uses(h, kind):
+                    if what in ("new_cells", "bases"):
+                        continue
+                    try:
+                        with quiet():
+                            use()
+                        out.fail("a dead handle to %s still acts (%s succeeded) after %s" % (addr, what, op[0]), hist)
+                        break
+                    except DeletedObjectError:
+                        pass
+                    except Exception as e:
+                        out.fail("a dead handle to %s raises %s instead of the deleted-object error on %s" % (
+                            addr, type(e).__name__, what), hist)
+                        break
+            handles = [x for x in handles if x[0]._is_valid()]
+            deadnodes = [n for n in m._impl.tracegraph.nodes if id(n[0]) not in impls1]
+            if deadnodes:
+                out.fail("the dependency graph still has a node of a deleted object (%r) after %s" % (
+                    deadnodes[0][0].name, op[0]), hist)
+            gone = set(impls0) - set(impls1)
+            if gone:
+                stats["dyn_deletions_examined"] += 1
+                bad = stale_dependents(gone, impls1, edges0, nodes0)
+                if bad is not None:
+                    out.fail("%s%r still holds the value computed from an object deleted by %s" % (
+                        bad[0].get_fullname() if hasattr(bad[0], "get_fullname") else bad[0].name, bad[1], op[0]), hist)
+            if len(out.failures) >= 3:
+                break
+    finally:
+        w.close()
+        close_all()
+
+
+def stale_dependents(dead, alive, edges0, nodes0):
+    """a node (of an object that is alive) still holding a computed value although, in the graph as it was before
+    the operation, it depended on a node of an object that went away; None if there is none"""
+    succ = collections.defaultdict(list)
+    for a, b in edges0:
+        succ[(id(a[0]),) + tuple(a[1:])].append(b)
+    todo = [n for n in nodes0 if id(n[0]) in dead]
+    seen = set()
+    while todo:
+        n = todo.pop()
+        key = (id(n[0]),) + tuple(n[1:])
+        if key in seen:
+            continue
+        seen.add(key)
+        todo += succ.get(key, [])
+        if id(n[0]) in alive and len(n) == 2 and hasattr(n[0], "data") and n[1] in n[0].data \
+                and n[1] not in n[0].input_keys:
+            return n
+    return None
+
+
+DYN_DELETIONS = ("del_cells", "del_ref", "del_mref", "remove_bases", "del_space")
+
+
+def run_dynamic(ctx, out, stats, per_motif=8):
+    import json
+    from . import c07
+    from .. import itemworld as IW
+    for ops in S.load_corpus("C13", world="items"):
+        sub = core.Outcome()
+        n = max(k for k, o in enumerate(ops) if o[0] in IW.DEF_EDITS)
+        S.observe(sub, {"ops": ops}, "in a corpus scenario", dyn_scenario, json.loads(json.dumps(ops)), n, sub, stats)
+        S.merge(out, sub)
+        stats["dyn_scenarios"] += 1
+        stats["dyn_corpus"] += 1
+    for mi, mo in enumerate(c07.MOTIFS):
+        prefix = [["set_mref", "u", 11]] + [json.loads(json.dumps(o)) for o in mo]
+        close_all()
+        w = IW.World("M")
+        try:
+            for op in prefix:
+                w.apply(op)
+            ok, res = S.observe(out, {"ops": prefix}, "after a motif program",
+                                lambda: (c07.instance_queries(w.m), c07.single_edits(w.m)))
+        finally:
+            w.close()
+            close_all()
+        if not ok:
+            continue
+        queries, edits = res
+        rng = ctx.rng("dyn", mi)
+        rest = [e for e in edits if e[0] not in DYN_DELETIONS]
+        chosen = [e for e in edits if e[0] in DYN_DELETIONS] + (
+            rest if ctx.tier == "thorough" else rng.sample(rest, min(len(rest), per_motif)))
+        for e in chosen:
+            ops = [json.loads(json.dumps(o)) for o in prefix + queries + [e]]
+            sub = core.Outcome()
+            S.observe(sub, {"ops": ops}, "after " + e[0], dyn_scenario, ops, len(ops) - 1, sub, stats)
+            S.merge(out, sub)
+            stats["dyn_scenarios"] += 1
+            if len([f for f in out.failures if not f.get("key")]) >= 4:
+                return
+
+
 def run(ctx, out):
-    S.run_struct(ctx, out, "C13", CFG, H, 80, 1500, RULE, ops_range=(14, 28))
+    stats = S.run_struct(ctx, out, "C13", CFG, H, 80, 1500, RULE, ops_range=(14, 28))
+    if len([f for f in out.failures if not f.get("key")]) < 4:
+        run_dynamic(ctx, out, stats)
+    out.coverage["evaluations"] += stats["dyn_scenarios"]
+    out.coverage["input_distribution"] = dict(stats)
+    out.coverage["rule"] += ("; plus dynamic copies: after each motif program of the ItemSpace world (several parametrised "
+                             "parents choosing one foreign base, nested parametrised spaces with equal arguments at both "
+                             "levels, replicated children, callers in plain spaces) with two instances of every "
+                             "parametrised space evaluated and handles to every dynamic space and cells, every applicable "
+                             "deletion (cells, references, spaces, base relations, anywhere) and sampled other edits")
 
 
 def replay(ctx, payload, out):
+    h = payload.get("history") or {}
+    ops = h.get("ops") or []
+    if any(o[0] in ("item", "evalstatic") or (o[0] == "eval" and isinstance(o[2], list)) for o in ops):
+        # a scenario of the ItemSpace world: handles are taken before the last definition edit
+        import json
+        from .. import itemworld as IW
+        n = max(k for k, o in enumerate(ops) if o[0] in IW.DEF_EDITS)
+        dyn_scenario(json.loads(json.dumps(ops)), n, out, collections.Counter())
+        return
     S.replay_struct(payload, out, H, CFG)
